@@ -2,7 +2,10 @@ package main
 
 import "fmt"
 
-// lemmaObligations: a lemma is a closed formula proved once.
+// lemmaObligations: a lemma is a closed formula over the parameters of a context function,
+// proved once for an arbitrary state (optionally by induction on an integer variable) and then
+// available through `uses NAME` at the entry of any function whose parameter names bind the
+// same free names.
 func (ex *Exec) lemmaObligations(pk *Package, lm *Lemma) (obs []*Obligation, err error) {
 	defer func() {
 		if r := recover(); r != nil {
@@ -16,10 +19,48 @@ func (ex *Exec) lemmaObligations(pk *Package, lm *Lemma) (obs []*Obligation, err
 			}
 		}
 	}()
-	st := &State{heap: map[string]string{}}
-	n := 0
-	env := &SpecEnv{ex: ex, st: st, bind: map[string]Val{}, pkg: pk, qn: &n}
-	goal := env.boolTerm(lm.Goal)
-	ob := &Obligation{Name: pk.Short + ".lemma." + lm.Name + "#lemma[0]", Kind: "lemma", Func: pk.Short + ".lemma." + lm.Name, Props: lm.Props, Assumes: st.assumes, Goal: goal, Desc: lm.Src}
-	return []*Obligation{ob}, nil
+	name := pk.Short + ".lemma." + lm.Name
+	var st *State
+	var env *SpecEnv
+	if lm.Ctx != "" {
+		fi := pk.Funcs[lm.Ctx]
+		if fi == nil {
+			return nil, fmt.Errorf("lemma context function %s not found", lm.Ctx)
+		}
+		st, env = ex.entryState(fi, &Contract{Key: fi.Key, Pkg: pk.Path, Loops: map[int]*LoopSpec{}, Props: lm.Props})
+	} else {
+		st = &State{heap: map[string]string{}}
+		n := 0
+		env = &SpecEnv{ex: ex, st: st, bind: map[string]Val{}, pkg: pk, qn: &n}
+	}
+	mk := func(kind, goal, desc string) *Obligation {
+		as := append(st.assumes[:len(st.assumes):len(st.assumes)], ex.goalIx...)
+		ex.goalIx = nil
+		return &Obligation{Name: fmt.Sprintf("%s#%s[0]", name, kind), Kind: kind, Func: name, Props: lm.Props, Assumes: as, Goal: goal, Desc: desc}
+	}
+	if lm.Induct == "" {
+		return []*Obligation{mk("lemma", env.goal(lm.Goal), lm.Src)}, nil
+	}
+	// shape: HYP ==> forall j int {..} :: BODY   (or just the quantifier)
+	var hyp SExpr
+	goal := lm.Goal
+	if b, ok := goal.(*SBin); ok && b.Op == "==>" {
+		hyp, goal = b.L, b.R
+	}
+	q, ok := goal.(*SQuant)
+	if !ok || !q.Forall || len(q.Vars) != 1 || q.Vars[0].Name != lm.Induct {
+		return nil, fmt.Errorf("inductive lemma must have the shape  [H ==>] forall %s int :: BODY", lm.Induct)
+	}
+	if hyp != nil {
+		st.assume(env.boolTerm(hyp))
+	}
+	j0 := ex.w.freshConst("ind_"+lm.Induct, sInt)
+	// induction hypothesis: the body for every smaller value
+	ih := &SQuant{Forall: true, Vars: q.Vars, Triggers: q.Triggers, Body: &SBin{Op: "==>", L: &SBin{Op: "<", L: &SIdent{lm.Induct}, R: &SIdent{"$ind0"}}, R: q.Body}}
+	c := env.child()
+	c.bind["$ind0"] = Val{T: j0, S: sInt}
+	st.assume(c.boolTerm(ih))
+	c2 := env.child()
+	c2.bind[lm.Induct] = Val{T: j0, S: sInt}
+	return []*Obligation{mk("lemma.step", c2.goal(q.Body), "induction step of "+lm.Src)}, nil
 }
